@@ -608,3 +608,60 @@ Fixpoint write_cfields (lx : bool) (cfs : list cfield) (st : wst) : wst * list (
 
 (* the dimensions a compression variable of the file refers to *)
 Definition cvar_meaning (st : wst) (v : nat) : list dimid := vnd st v.
+
+(* ================================================================ per-field writer state *)
+(* g['sample_ncdim'] maps the netCDF dimensions that are compressed to the
+   sample dimension (for gathering: the list variable) already written for
+   them.  It is consulted by _netcdf_dimensions for every metadata construct
+   whose own data are compressed: when the entry exists the construct is
+   written on that sample dimension and its own list variable is NOT written;
+   otherwise the list variable is written (_write_list_variable) and entered.
+   The mapping is PER FIELD: _write_field_or_domain starts with an empty one
+   (as it does for axis_to_ncdim, key_to_ncvar, ...), whereas 'seen', the
+   spanning-construct table and the count / index tables live per file.
+
+     rs = true  : reset at the start of every field (the code)
+     rs = false : initialised once per file, carried over (refuted variant). *)
+Record gitem := mkGI { gi_t : Z; gi_p : nat; gi_n : nat }.   (* list token; the construct spans the n axes from p, gathered *)
+Record cfield2 := mkCF2 { c2_f : cfield; c2_g : list gitem }.
+
+Definition smap := list (list dimid * nat).
+
+Definition sm_get (m : list dimid) (s : smap) : option nat :=
+  match find (fun e => dims_eqb m (fst e)) s with Some e => Some (snd e) | None => None end.
+
+Definition gdims (p n : nat) (dims : list dimid) : list dimid := firstn n (skipn p dims).
+
+Fixpoint write_gitems (dims : list dimid) (l : list gitem) (st : wst) (s : smap) : wst * smap * list nat :=
+  match l with
+  | [] => (st, s, [])
+  | it :: r =>
+      let m := gdims (gi_p it) (gi_n it) dims in
+      match sm_get m s with
+      | Some v => let '(st2, s2, vs) := write_gitems dims r st s in (st2, s2, v :: vs)
+      | None =>
+          let '(st1, v) := write_cvar true (mkC KList (gi_t it) [] None) m st in
+          let '(st2, s2, vs) := write_gitems dims r st1 ((m, v) :: s) in (st2, s2, v :: vs)
+      end
+  end.
+
+Definition write_cfield2 (rs : bool) (cf : cfield2) (st : wst) (s : smap)
+  : wst * smap * (fout * option nat * list nat) :=
+  let s0 := if rs then [] else s in
+  let '(st1, (o, ov)) := write_cfield true (c2_f cf) st in
+  let s1 := match cf_c (c2_f cf), ov with
+            | Some (CGath t p n), Some v => (gdims p n (o_dims o), v) :: s0
+            | _, _ => s0
+            end in
+  let '(st2, s2, vs) := write_gitems (o_dims o) (c2_g cf) st1 s1 in
+  (st2, s2, (o, ov, vs)).
+
+Fixpoint write_cfields2 (rs : bool) (cfs : list cfield2) (st : wst) (s : smap)
+  : wst * smap * list (fout * option nat * list nat) :=
+  match cfs with
+  | [] => (st, s, [])
+  | cf :: r =>
+      let '(st1, s1, x) := write_cfield2 rs cf st s in
+      let '(st2, s2, xs) := write_cfields2 rs r st1 s1 in
+      (st2, s2, x :: xs)
+  end.
